@@ -57,6 +57,49 @@ def _same_constant(a, b) -> bool:
             return type(a) is type(b) and a == b
 
 
+def _holds_list(val) -> bool:
+    """Whether a known value has a list anywhere inside it.  A list is the
+    only value a program can change after it was made."""
+    match val:
+        case list():
+            return True
+        case tuple():
+            return any(_holds_list(v) for v in val)
+        case _:
+            return False
+
+
+class _MayMutate(DefaultVisitor):
+    """Does the function contain anything that can write into a list?
+
+    Lists are shared by reference, so a list-valued definition stays the
+    value it was bound to only while nothing writes through *any* name for
+    it.  The two things that can are an element store (``xs[i] = e``,
+    possibly through an alias) and a call (an FPy callee writes its
+    caller's cells; a foreign callable may do anything).  A rounding
+    context constructor builds a context and touches nothing.
+    """
+
+    found: bool
+
+    def __init__(self):
+        self.found = False
+
+    def _visit_indexed_assign(self, stmt: IndexedAssign, ctx: None):
+        self.found = True
+
+    def _visit_call(self, e: Call, ctx: None):
+        if not (isinstance(e.fn, type) and issubclass(e.fn, Context)):
+            self.found = True
+        super()._visit_call(e, ctx)
+
+    @staticmethod
+    def check(func: FuncDef) -> bool:
+        inst = _MayMutate()
+        inst._visit_function(func, None)
+        return inst.found
+
+
 class _PartialEvalInstance(DefaultVisitor):
     """
     Partial evaluation instance for a function.
@@ -79,6 +122,18 @@ class _PartialEvalInstance(DefaultVisitor):
         self.rt = get_default_interpreter()
         self.by_def = {}
         self.by_expr = {}
+        # A definition holding a list is a constant only if nothing in the
+        # function can write into a list: the analysis tracks values, not
+        # aliases, so it cannot tell which definitions a store reaches.
+        self.lists_are_stable = not _MayMutate.check(func)
+
+    def _set_def(self, d: Definition, val: Value):
+        """Records *val* as the known value of *d* -- unless it holds a list
+        that the function may change after this point."""
+        if not self.lists_are_stable and _holds_list(val):
+            self.by_def.pop(d, None)
+        else:
+            self.by_def[d] = val
 
     def apply(self) -> PartialEvalInfo:
         self._visit_function(self.func, None)
@@ -331,7 +386,7 @@ class _PartialEvalInstance(DefaultVisitor):
             case Id():
                 if isinstance(binding, NamedId):
                     d = self.def_use.find_def_from_site(binding, site)
-                    self.by_def[d] = val
+                    self._set_def(d, val)
             case TupleBinding():
                 assert isinstance(val, tuple)
                 for elt, v in zip(binding.elts, val):
@@ -442,7 +497,7 @@ class _PartialEvalInstance(DefaultVisitor):
             if str(name) not in func.env:
                 raise KeyError(f'free variable `{name}` missing from env')
             d = self.def_use.find_def_from_site(name, func)
-            self.by_def[d] = to_value(func.env[str(name)])
+            self._set_def(d, to_value(func.env[str(name)]))
 
         # visit statements
         self._visit_block(func.body, fctx)
